@@ -12,6 +12,7 @@ T_NOTE = ("Trusted: the recorder (spies + wrappers, harness/recorder.py), order-
 CLAIMS = {
  "C01": ("trace validation: every recorded run of the bound-pattern universe against TraceCobyqa.tla (clauses C01.*: exact inclusion at every user call / callback / return, trial points inside the widened internal box at every site)", "5/C01"),
  "C02": ("trace validation: returned x is an evaluated point, fun equals its logged value, maxcv lies in the rounding band of the true violation computed from the user's statement; C02's own cross product enumerated by TLC", "5/C02"),
+ "C03": ("exhaustive model check of Filter.tla (all histories of (f,cv) pairs over an abstract domain incl. NaN/+-inf, length <= 5, penalties, tolerances, filter sizes) + replay of every exported history into a real Problem (best_eval must select a member of the Acceptable set computed by TLC) + trace validation of real runs (C03.best)", "5/C03"),
  "C05": ("design model check of the budget invariants + trace validation (nfev = number of evaluations, <= maxfev, nit <= maxiter, histories = last min(nfev,history_size) logged values)", "5/C05"),
  "C06": ("design model check of the call discipline + trace validation of every user call (inside an evaluation window, same user-space point, once per evaluation, omission rule)", "5/C06"),
  "C07": ("design model check of status legality on every exit path + trace validation of code/message/success against what the trace shows", "5/C07"),
